@@ -413,6 +413,28 @@ Proof.
         * assert (B * k <= B * n) by (apply N.mul_le_mono_l; exact Hk2). lia.
         * intros X. rewrite X in Harity. cbn in Harity. contradiction.
         * intros X. apply Hwc. rewrite Hcs, X. reflexivity. }
-  destruct G as (sets & Es & Hlen & Hg & Hu). fold es. rewrite Es, (pad_exact _ _ Hlen).
+  assert (Etot : (tot_weight es =? 0) = false).
+  { assert (B * 1 <= B * n) by (apply N.mul_le_mono_l; lia).
+    apply N.eqb_neq. rewrite tot_weight_sum by (rewrite Ews; rewrite pow32 in *; lia). rewrite Ews.
+    intros Z0. apply NE0. rewrite Forall_forall in Hok. destruct (Hok r0 Hr0) as (_ & _ & _ & Hs).
+    apply (weight_u_zero _ Hs). now apply (rsum_zero roots). }
+  fold es. rewrite Etot.
+  destruct G as (sets & Es & Hlen & Hg & Hu). rewrite Es, (pad_exact _ _ Hlen).
   exists sets. unfold roots_union. rewrite Ecs in *. auto.
+Qed.
+
+(* roots without any CPU: the call fails with EINVAL and writes nothing (fix 18dcd81) *)
+Lemma hwloc_distrib_cpuless roots n until flags :
+  Forall (fun r => weight_u (fst r) = 0) roots ->
+  fst (fst (hwloc_distrib roots n until flags)) = (-1)%Z /\ snd (fst (hwloc_distrib roots n until flags)) = 1 /\
+  snd (hwloc_distrib roots n until flags) = D_ok [].
+Proof.
+  intros Hz. unfold hwloc_distrib.
+  destruct ((n =? 0) || negb (N.ldiff flags HWLOC_DISTRIB_FLAG_REVERSE =? 0)); [auto|].
+  set (rv := negb (N.land flags HWLOC_DISTRIB_FLAG_REVERSE =? 0)).
+  assert (E : tot_weight (map (fun r => entry_of until rv (fst r) (snd r)) roots) = 0).
+  { unfold tot_weight. generalize dependent roots. induction roots as [|r tl IH]; intros Hz; [reflexivity|].
+    inversion Hz as [|? ? Hr Htl]; subst. cbn [map fold_left]. unfold e_cs at 2, entry_of at 2. cbn [fst]. rewrite Hr. cbn [N.add].
+    change (u32 0) with 0. apply IH. exact Htl. }
+  rewrite E. cbn. auto.
 Qed.
